@@ -21,6 +21,34 @@ var protocolMethods = map[string]bool{"OnPrepare": true, "OnExecute": true, "OnC
 
 // ctxValueOfKey: v is the (type-asserted) result of ctx.Value(&interceptors.<key>{}); returns key type name.
 func ctxValueOfKey(v ssa.Value) string {
+	return ctxValueOfKeyS(v, nil, 0)
+}
+
+// ctxValueOfKeyS resolves the key through helper parameters; a string helper `f(ctx, key)` every non-empty result of which is
+// ctx.Value(key).(string) counts as that context value.
+func ctxValueOfKeyS(v ssa.Value, sub Subst, depth int) string {
+	if call, ok := v.(*ssa.Call); ok && depth < 2 && call.Call.StaticCallee() != nil && prog.InModule(call.Call.StaticCallee()) {
+		rvs, isH := HelperResults(call)
+		if !isH || len(rvs) == 0 {
+			return ""
+		}
+		name := ""
+		for _, rv := range rvs {
+			if k, isK := rv.Val.(*ssa.Const); isK && an.Term(k) == "\"\"" {
+				continue // the zero string: no identity
+			}
+			ns := Subst{}
+			for a, b := range rv.Sub {
+				ns[a] = sub.Res(b)
+			}
+			n := ctxValueOfKeyS(rv.Val, ns, depth+1)
+			if n == "" || (name != "" && n != name) {
+				return ""
+			}
+			name = n
+		}
+		return name
+	}
 	if ex, ok := v.(*ssa.Extract); ok {
 		v = ex.Tuple
 	}
@@ -32,7 +60,7 @@ func ctxValueOfKey(v ssa.Value) string {
 	if !ok || !call.Call.IsInvoke() || call.Call.Method.Name() != "Value" || len(call.Call.Args) != 1 {
 		return ""
 	}
-	mi, ok := call.Call.Args[0].(*ssa.MakeInterface)
+	mi, ok := sub.Res(call.Call.Args[0]).(*ssa.MakeInterface)
 	if !ok {
 		return ""
 	}
@@ -329,6 +357,28 @@ func (c *Ctx) IdentitySource(prop string) {
 			nset++
 			// value: PeerCertificates[0].Subject.CommonName of the TLS connection state, below HandshakeComplete
 			val := an.StripConv(ci.Common().Args[2])
+			cutFn, cutTargets := fn, []ssa.Instruction{ci.(ssa.Instruction)}
+			if ex, isEx := val.(*ssa.Extract); isEx && ex.Index == 0 {
+				// a helper returning (name, authenticated): used only below [authenticated]; its authenticated returns are examined
+				if hc, isCall := ex.Tuple.(*ssa.Call); isCall && hc.Call.StaticCallee() != nil && prog.InModule(hc.Call.StaticCallee()) && guardedByOk(hc, ci.(ssa.Instruction)) {
+					h := hc.Call.StaticCallee()
+					var vals []ssa.Value
+					var sites []ssa.Instruction
+					for _, ret := range an.Returns(h) {
+						if len(ret.Results) != 2 {
+							continue
+						}
+						if k, isK := an.Result(ret, 1).(*ssa.Const); isK && an.Term(k) == "false" {
+							continue
+						}
+						vals = append(vals, an.StripConv(an.Result(ret, 0)))
+						sites = append(sites, ret)
+					}
+					if len(vals) == 1 {
+						val, cutFn, cutTargets = vals[0], h, sites
+					}
+				}
+			}
 			term := an.Term(val)
 			okVal := strings.HasSuffix(term, ".PeerCertificates[0].Subject.CommonName") || strings.HasSuffix(term, "PeerCertificates[0].Subject.CommonName")
 			if !okVal {
@@ -339,8 +389,8 @@ func (c *Ctx) IdentitySource(prop string) {
 				c.R.Fail(rule, Fn(fn), c.Pos(ci), "the certificate is not taken from the connection's TLS authentication info: "+term, "peer.AuthInfo.(credentials.TLSInfo).State", nil)
 				continue
 			}
-			target := ci.(ssa.Instruction)
-			x, path := an.Cut(an.CutQuery{From: an.Entry(fn), Target: func(i ssa.Instruction) bool { return i == target },
+			target := cutTargets[0]
+			x, path := an.Cut(an.CutQuery{From: an.Entry(cutFn), Target: func(i ssa.Instruction) bool { return i == target },
 				AcceptEdge: func(b *ssa.BasicBlock, i int, a *an.Atom) bool {
 					if a == nil || a.Op != "true" {
 						return false
